@@ -288,7 +288,8 @@ func (g *Gen) Plan(name string, ctl bool) {
 	case "deferred_then_plain":
 		// a renomination deferred on a pair that is not valid yet, then a (reordered) plain USE-CANDIDATE on the same
 		// pair: the deferred value must survive, so the pair is selected -- whatever its priority -- once it is valid
-		g.script = []step{g.sAL(0), g.sAR(0), g.sAR(1), sStart(false), sTick, sTick, sAnswerTo(0), sPeerReq(0, 0, true, 1),
+		// (the second remote is server-reflexive: its pair has the lower priority)
+		g.script = []step{g.sAL(0), g.sAR(0), g.sAR(2), sStart(false), sTick, sTick, sAnswerTo(0), sPeerReq(0, 0, true, 1),
 			sPeerReq(0, 1, true, 1), sPeerReq(0, 1, true, 0), sTick, sAnswerTo(1), sAnswerTo(1), sTick, sAnswerTo(1)}
 	case "supersede_renom":
 		// a renomination deferred on a peer-reflexive pair survives the arrival of the signalled candidate
